@@ -43,6 +43,23 @@ def closer(step: int | None, at: float | None, then: tuple = ()):
     return inject
 
 
+class DrainPlan(cf.Plan):
+    """from t = 2.9 s on every drain() suspends for half a second (back-pressure) and, if asked, then fails"""
+
+    def __init__(self, fail: bool):
+        super().__init__(refuse=0)
+        self.fail, self.sess = fail, None
+
+    def _late(self):
+        return self.sess is not None and self.sess.loop.time() >= 2.9
+
+    def drain_delay(self, conn, nth):
+        return 0.5 if self._late() else None
+
+    def drain_fails(self, conn, nth):
+        return self.fail and self._late()
+
+
 def sessions(tier: str, seed: int, kinds=vloop.CLIENTS):
     logs, meta = [], []
     c13.CONF.clear()
@@ -82,6 +99,24 @@ def sessions(tier: str, seed: int, kinds=vloop.CLIENTS):
                         log, _ = cf.run(kind, plan, both, status_cb=cb, t_end=40.0)
                         logs.append(log)
                         meta.append((kind, "close", "send-fault-reconnect", cb, f"+{dt}s"))
+        # close() while a send() is suspended in drain() under back-pressure (or queued behind such a send on the
+        # send lock); the suspended send then fails, or the queued one writes to the link close() has shut: the
+        # fault handler of send() runs after CLOSED and must neither report DISCONNECTED nor reconnect
+        if kind != "actisense":
+            for fail in (True, False):
+                for nsend in (1, 2):
+                    for dt in (0.001, 0.1, 0.3):
+                        for cb in ("ok", "slowD"):
+                            plan = DrainPlan(fail)
+
+                            def susp(s, state, plan=plan, dt=dt, nsend=nsend):
+                                plan.sess = s
+                                for j in range(nsend):
+                                    s.at_time(3.0 + 0.01 * j, lambda: s.user("send", lambda: s.client.send(cf.iso_request())))
+                                closer(None, 3.0 + dt, ("connect",))(s, state)
+                            log, _ = cf.run(kind, plan, susp, status_cb=cb, t_end=40.0)
+                            logs.append(log)
+                            meta.append((kind, "close", f"suspended-send{nsend}{'-fails' if fail else ''}", cb, f"+{dt}s"))
         # faults with raising / suspending callbacks: notification clauses
         for cb in ("raise", "slow"):
             for fault in ("eof", "write-error"):
